@@ -253,7 +253,7 @@ func runReal(sc Scenario) RunResult {
 	}
 	// the login as the correlator stores it must stay what was delivered
 	checkStored := func(where string) {
-		if !delivered {
+		if !delivered || len(res.LoginDiffs) > 0 { // the first difference of a case is reported
 			return
 		}
 		if s := snapshot(src); s != before {
